@@ -1,4 +1,5 @@
 """C11 — run formatting becomes exactly the corresponding inline elements."""
+import common
 import itertools
 import random
 
@@ -101,7 +102,7 @@ def run(out, tier, seed, model_ok):
         cs.append(make_case(rng, "c11-sub-%s" % "".join(map(str, bits)), [props], {}))
     nex = len(cs)
     tags = ["span", "code", "mark", "u", "b", "del", "strong", "em", "span.bold", "span.italic", "span.x", "span[title='t']", "span[title='u']"]
-    for i in range(2000 if tier == "quick" else 30000):
+    for i in range(common.deepen(2000 if tier == "quick" else 30000)):
         mapped = {k: rng.choice(tags) for k in ["b", "i", "u", "strike", "all-caps", "small-caps", "highlight"] if rng.random() < 0.35}
         n = rng.choice([1, 2, 2, 3, 4])
         plist = []
